@@ -162,6 +162,44 @@ def c05Class (c : Case) : String :=
     | none, none => 0
   if loopVariableInvisibleToCallee ((c.asts.take upTo).filterMap parseAst) then "loop-variable-invisible-to-callee" else ""
 
+/-! ### the open C04 class `recursive-call-hit-ignores-callers-local-function`
+
+A same-function (recursive) call is parented to its CALLER's frame, so a free name of the body can resolve to a local of
+an outer instance of the function; a result remembered for a call from another scope chain (where the name resolved
+to the top-level function) is then served to it: `g=func(){1}; func f(n){ if n==0 {return g()}; g := func(){2}; f(n-1) }; f(0); f(1)`.
+Decided on the session's trees: some function literal that calls itself (by its name or `self`) and binds, in its own body,
+a function literal to a name that a top-level statement of the session also binds to a function. -/
+
+def topFunctionNames (asts : List Node) : List String :=
+  asts.flatMap fun prog =>
+    match prog with
+    | .stmts l => l.filterMap fun st =>
+        match st with
+        | .inf _ (.ident n) (.fn ..) => some n
+        | .fn (some n) .. => some n
+        | _ => none
+    | _ => []
+
+def bindsFunctionLocally (names : List String) (body : Node) : Bool :=
+  (subnodes body).any fun n =>
+    match n with
+    | .inf op (.ident g) (.fn ..) => (op == "ASSIGN" || op == "DEFINE") && names.contains g
+    | .fn (some g) .. => names.contains g
+    | _ => false
+
+def recursiveCallSeesCallersLocalFunction (asts : List Node) : Bool :=
+  let tops := topFunctionNames asts
+  let all := asts.flatMap subnodes
+  -- the names under which function literals are bound anywhere (a function bound by assignment calls itself by that name)
+  all.any fun n =>
+    match n with
+    | .inf _ (.ident f) (.fn _ _ _ _ _ body) => mentions [f, "self"] body && bindsFunctionLocally tops body
+    | .fn (some f) _ _ _ _ body => mentions [f, "self"] body && bindsFunctionLocally tops body
+    | _ => false
+
+def c04Class (c : Case) : String :=
+  if recursiveCallSeesCallersLocalFunction (c.asts.filterMap parseAst) then "recursive-call-hit-ignores-callers-local-function" else ""
+
 def runCase (inp obs : String) : CaseResult :=
   match parseCase inp obs with
   | none => CaseResult.badLine
@@ -191,9 +229,12 @@ def runCase (inp obs : String) : CaseResult :=
         | _ => true
       { model := model, agree := b == r1 && d == r0, stmtModel := stmtModel, stmtImpl := stmtImpl, tags := tags,
         nontrivial := !a.all (· == "P") && !cut,
-        klass := if c.prop == "C05" && !stmtImpl then c05Class c else "" }
+        klass := if c.prop == "C05" && !stmtImpl then c05Class c
+                 else if (c.prop == "C04" || c.prop == "C01") && !stmtImpl then c04Class c else "" }
     | .error w, _ | _, .error w =>
       { model := "declined:" ++ w, agree := false, stmtModel := true, stmtImpl := stmtCfg, unmodelled := true,
-        tags := ("declined:" ++ w) :: tags, nontrivial := !a.all (· == "P") }
+        tags := ("declined:" ++ w) :: tags, nontrivial := !a.all (· == "P"),
+        klass := if c.prop == "C05" && !stmtCfg then c05Class c
+                 else if (c.prop == "C04" || c.prop == "C01") && !stmtCfg then c04Class c else "" }
 
 end Grol.EvalSuite
